@@ -385,3 +385,83 @@ func H_C01_like_sym() {
 	sameRows(got, want, "filter")
 	verif.Reach("end")
 }
+
+// H_C01_in_subquery: IN over a single-column subquery evaluated against the
+// enclosing document.
+func H_C01_in_subquery() {
+	n := verif.Choose("rows", maxRows(2, 3)+1)
+	m := verif.Choose("list", 3)
+	neg := verif.Choose("not", 2)
+	doc, rows := numTable(n, "a")
+	u := make([]any, m)
+	cs := make([]float64, m)
+	for i := range u {
+		cs[i] = verif.F64("c")
+		verif.Assume(cs[i] == cs[i])
+		u[i] = Map{"c": cs[i]}
+	}
+	doc["u"] = u
+	kw := " IN "
+	if neg == 1 {
+		kw = " NOT IN "
+	}
+	got, ok := runQuery(doc, "SELECT * FROM t WHERE a"+kw+"(SELECT c FROM `<-u`)")
+	if !ok {
+		return
+	}
+	var want []Map
+	for _, r := range rows {
+		in := false
+		for _, c := range cs {
+			if f64of(r["a"]) == c {
+				in = true
+			}
+		}
+		if in != (neg == 1) {
+			want = append(want, r)
+		}
+	}
+	sameRows(got, want, "filter")
+	verif.Reach("end")
+}
+
+// H_C01_negative: comparisons against negative constants (the parser turns
+// -c into a unary minus) and against computed right-hand sides.
+func H_C01_negative() {
+	n := verif.Choose("rows", maxRows(2, 3)+1)
+	op := verif.Choose("op", 6)
+	form := verif.Choose("form", 3)
+	doc, rows := numTable(n, "a", "b")
+	c := verif.F64("c")
+	var sql string
+	switch form {
+	case 0:
+		sql = verif.SQL("SELECT * FROM t WHERE a "+cmpOps[op]+" -?", c)
+	case 1:
+		sql = verif.SQL("SELECT * FROM t WHERE a "+cmpOps[op]+" b + ?", c)
+	case 2:
+		sql = verif.SQL("SELECT * FROM t WHERE a - ? "+cmpOps[op]+" b", c)
+	}
+	got, ok := runQuery(doc, sql)
+	if !ok {
+		return
+	}
+	var want []Map
+	for _, r := range rows {
+		a, b := f64of(r["a"]), f64of(r["b"])
+		var keep bool
+		switch form {
+		case 0:
+			keep = refCmp(op, a, -1*c)
+		case 1:
+			keep = refCmp(op, a, b+c)
+		case 2:
+			keep = refCmp(op, a-c, b)
+		}
+		if keep {
+			want = append(want, r)
+		}
+	}
+	sameRows(got, want, "filter")
+	verif.Reach("end")
+}
